@@ -392,3 +392,35 @@ def _(E, comp):
              And(E.num(args[0]) * 360 == want[0] * 360, args[1] == want[1], args[2] == want[2]))
     E.ensure("alpha_is_kept", args[3] * 255 == A)
     E.ensure("value_is_the_word_returned", c.value == E.e.symbols["new_word"])
+
+
+ORDERS = ["r>=g>=b", "r>=b>=g", "g>=r>=b", "g>=b>=r", "b>=r>=g", "b>=g>=r"]
+
+
+@family("C13/Color.hsl_getters/standard_conversion", ORDERS,
+        funcs=["Color.hue", "Color.saturation", "Color.lightness", "Color.red", "Color.green", "Color.blue",
+               "Angle.turns", "Angle.as_degrees"], props=["C13"], timeout_ms=60000, uses=["C13/Color.getters/fields"],
+        note="all 2^24 RGB values, split by the order of the channels")
+def _(E, order):
+    """hue, saturation and lightness read from a colour are the standard RGB -> HSL conversion of its channels
+    (CSS Color 3 / colorsys): every 8-bit channel value, so also colours that are almost grey"""
+    r, g, b = E.int("r", 0, 255), E.int("g", 0, 255), E.int("b", 0, 255)
+    a = E.int("a", 0, 255)
+    hi, mid, lo = [{"r": r, "g": g, "b": b}[k] for k in order.split(">=")]
+    E.assume(And(hi >= mid, mid >= lo))
+    c = E.new("Color", value=((r * 256 + g) * 256 + b) * 256 + a)
+    # the channel accessors enter through their contract (C13/Color.getters/fields): the byte of the word
+    for name, val in (("red", r), ("green", g), ("blue", b)):
+        E.use_contract("Color." + name, lambda E2, args, kw, val=val: val if len(args) == 1 else E2.RUN_REAL)
+    H, S, L = E.num(E.get(c, "hue")), E.get(c, "saturation"), E.get(c, "lightness")
+    M, m = hi, lo                                           # in 1/255 units
+    E.ensure("lightness_is_the_mean_of_the_extreme_channels", L * 510 == M + m)
+    E.ensure("saturation", Ite(M == m, S == 0, Ite(M + m < 255, S * (M + m) == M - m, S * (510 - M - m) == M - m)))
+    top = order[0]
+    # hue in degrees: 60 * ((g-b)/d mod 6) if red is the maximum, 60 * (2 + (b-r)/d) for green, 60 * (4 + (r-g)/d) for blue
+    d = M - m
+    num = {"r": g - b, "g": b - r, "b": r - g}[top]
+    base = {"r": 0, "g": 120, "b": 240}[top]
+    raw = base * d + 60 * num                                 # = hue * d before wrapping into [0, 360)
+    E.ensure("hue", Ite(d == 0, H == 0, Or(H * d == raw, H * d == raw + 360 * d, H * d == raw - 360 * d)))
+    E.ensure("hue_in_range", And(H >= 0, H <= 360))
